@@ -26,3 +26,13 @@ func Goroutines() int                   { return 0 }
 func Yield()                            {}
 func AllocLimit(n int)                  {}
 func SameBacking(a, b []byte) bool      { return false }
+
+// Overlaps: the two byte regions share at least one byte of one array.
+func Overlaps(a, b []byte) bool { return false }
+
+// Follows: b is empty, or b starts exactly where a ends in the same array (an empty slice taken at
+// the capacity of an array does not keep a meaningful address in Go).
+func Follows(a, b []byte) bool { return false }
+
+// SameStart: a and b start at the same byte of the same array (both non-nil).
+func SameStart(a, b []byte) bool { return false }
